@@ -223,6 +223,12 @@ class Exec(Engine):
                 return [(self.snapshot(self.ev1(node.args[0], b), b), st)]
             if f.id in ('ev_count', 'ev_arg', 'ev_outcome', 'ev_names', 'ev_raised') and self.pure:
                 return [(self.event_query(f.id, node, st), st)]
+            if f.id == 'tb_entries' and self.pure:
+                from . import models_run
+                tb = self.ev1(node.args[0], st)
+                if isinstance(tb, VOptSym):
+                    tb = tb.val
+                return [(models_run.traceback_entries(self, tb, st), st)]
         out = []
         for fv, s in self.ev(f, st):
             if isinstance(fv, Raised):
@@ -610,6 +616,10 @@ class Exec(Engine):
             if k in o.fields:
                 return [(o.fields[k], st)]
             return [(args[1] if len(args) > 1 else NONE, st)]
+        if o.cls in C.DICT_RECORDS and name == 'update':
+            # entries are copied in: every tracked key may change (over-approximation)
+            self.havoc_object(ref, st, 'upd', node)
+            return [(NONE, st)]
         im = self.method_models.get('%s.%s' % (o.cls, name))
         if im is not None:
             return im(self, [ref] + args, kwargs, st, node)
@@ -689,6 +699,11 @@ class Exec(Engine):
             if k in bound:
                 raise Undecided('duplicate argument %s' % k, node)
             bound[k] = v
+        if argspec.kwarg is not None:
+            extra = {k: v for k, v in kwargs.items() if k not in names and k not in [a.arg for a in argspec.kwonlyargs]}
+            for k in extra:
+                del bound[k]
+            bound[argspec.kwarg.arg] = st.alloc(HDict(extra))
         for a in names + [a.arg for a in argspec.kwonlyargs]:
             if a not in bound:
                 if a in defaults:
@@ -751,7 +766,7 @@ class Exec(Engine):
         bound = self.bind_params(fnode.args, self.defaults_of(fn) if fn is not None else {}, args, kwargs, st, node)
         if c.trusted:
             self.trusted_used.add('contract:' + c.qualname)
-        if self.pure:
+        if self.pure or c.opts.get('substitute'):
             # under a binder / inside a clause only *functional* contracts can be used: the call denotes
             # the expression the contract gives (its definedness condition is collected for the caller)
             if 'functional' not in c.opts:
@@ -777,6 +792,27 @@ class Exec(Engine):
                 st.assume(g)
             # frame: havoc what the callee may modify
             self.havoc_modifies(c, bound, st, node)
+            # process-global cells that end up holding an existing object: one continuation per alternative
+            if c.opts.get('global_alias'):
+                outs = []
+                for gname, alts in c.opts['global_alias'].items():
+                    key = tuple(gname.rsplit('.', 1))
+                    for cond_text, expr in alts:
+                        s_k = st.copy()
+                        cond = self.clause(cond_text, s_k, bound, old=pre_state)
+                        if not self.feasible(s_k, cond):
+                            continue
+                        s_k.assume(cond)
+                        saved_old = self.old_state
+                        s_k.globals[key] = self.term(expr, s_k, bound, old=pre_state)
+                        outs.extend(self._finish_contract(c, bound, s_k, pre_state, node))
+                return outs
+            return self._finish_contract(c, bound, st, pre_state, node)
+        finally:
+            self.module, self.modname = saved
+
+    def _finish_contract(self, c, bound, st, pre_state, node):
+        if True:
             out = []
             # exceptional outcomes
             normal_guard = []
@@ -800,7 +836,7 @@ class Exec(Engine):
                     if not self.feasible(s, cond):
                         continue
                     s.assume(cond)
-                    exc = s.live_exc if cls is None else VExc(cls, {}, tag='callee:' + c.func)
+                    exc = (s.handling[-1] if s.handling else s.live_exc) if cls is None else VExc(cls, {}, tag='callee:' + c.func)
                     if exc is None:
                         exc = VExc(Exception, {}, tag='live')
                     if c.log:
@@ -813,16 +849,26 @@ class Exec(Engine):
                 return out
             rty = parse_type(c.returns)
             result = NONE if rty[0] == 'none' else self.fresh_result(rty, c.func, st)
+            # results that ARE an existing object (aliases) cannot be fresh values
+            for idx, expr in c.opts.get('result_alias', {}).items():
+                av = self.term(expr, st, bound)
+                if idx is None:
+                    result = av
+                else:
+                    items = list(result.items)
+                    items[idx] = av
+                    result = VTuple(items)
             b2 = dict(bound)
             b2['result'] = result
             for name, text in c.ensures:
                 st.assume(self.clause(text, st, b2, old=pre_state))
+            if not self.feasible(st):
+                # never let an inconsistent callee contract silently remove the continuation
+                raise Undecided('the ensures of %s contradict the caller state (aliasing result? use result_alias)' % c.qualname, node)
             if c.log:
                 self.log_event(st, c.qualname, b2, 'normal')
             out.append((result, st))
             return out
-        finally:
-            self.module, self.modname = saved
 
     def fresh_result(self, rty, base, st):
         if rty[0] == 'opt':
@@ -909,6 +955,9 @@ class Exec(Engine):
                     cur = o.fields.get(n.attr)
                     fields = dict(o.fields)
                     fty = C.RECORDS.get(o.cls, {}).get(n.attr)
+                    ov = (self.cur_contract.opts.get('entry_types', {}) if self.cur_contract else {}).get('%s.%s' % (o.cls, n.attr))
+                    if ov is not None:
+                        fty = ov
                     if fty is not None:
                         p = parse_type(fty)
                         fields[n.attr] = self.fresh_result(p, '%s_%s' % (base, n.attr), st)
@@ -990,6 +1039,8 @@ class Exec(Engine):
         return results
 
     def exec_stmt(self, node, st):
+        if os.environ.get('PYVC_TRACE_LINE') and str(getattr(node, 'lineno', '')) in os.environ['PYVC_TRACE_LINE'].split(','):
+            print('TRACE line', node.lineno, type(node).__name__, 'handling', st.handling[-1:] if st.handling else None)
         m = getattr(self, 'exec_' + type(node).__name__, None)
         if m is None:
             raise Undecided('unsupported statement %s' % type(node).__name__, node)
@@ -1589,8 +1640,18 @@ class Exec(Engine):
         if isinstance(node, ast.For):
             names |= assigned_names([ast.Assign(targets=[node.target], value=ast.Constant(0))])
         for name in sorted(names | set(spec.types)):
+            if name in spec.types and '.' in name:
+                continue    # attribute paths are handled below
             if name in spec.types:
                 tyname = spec.types[name]
+                if tyname.startswith('='):
+                    # the variable is an alias of an existing object
+                    self.pure += 1
+                    try:
+                        st.frames[st.cur][name] = self.ev1(ast.parse(tyname[1:], mode='eval').body, st)
+                    finally:
+                        self.pure -= 1
+                    continue
                 if tyname.startswith('objlist['):
                     n = self.ctx.fresh(name + '_len', INT)
                     st.assume(Ge(n, IntV(0)))
@@ -1615,6 +1676,25 @@ class Exec(Engine):
                 continue
             st.frames[st.cur][name] = self.fresh_like(cur, name, st)
         muts = mutated_exprs(body) if spec.modifies is None else set(spec.modifies)
+        for path, tyname in spec.types.items():
+            if '.' not in path:
+                continue
+            muts.discard(path)
+            owner_txt, attr = path.rsplit('.', 1)
+            self.pure += 1
+            try:
+                owner = self.ev1(ast.parse(owner_txt, mode='eval').body, st)
+                if tyname.startswith('idxlist['):
+                    basev = self.ev1(ast.parse(tyname[8:-1], mode='eval').body, st)
+                    val = st.alloc(HIdxList(basev, self.ctx.fresh(attr + '_idx', '(Seq Int)')))
+                else:
+                    val = self.fresh(parse_type(tyname), attr, st)
+            finally:
+                self.pure -= 1
+            o = st.heap[owner.loc]
+            f = dict(o.fields)
+            f[attr] = val
+            st.heap[owner.loc] = HInst(o.cls, f, o.view)
         for expr in sorted(muts):
             try:
                 n = ast.parse(expr, mode='eval').body
@@ -1624,7 +1704,7 @@ class Exec(Engine):
                 continue    # rebinding already produced a fresh object
             try:
                 if isinstance(n, ast.Attribute):
-                    self.havoc_expr(expr, {}, st, node, base='loop')
+                    self.havoc_expr(expr, dict(st.frames[st.cur]), st, node, base='loop')
                     continue
                 self.pure += 1
                 try:
@@ -1675,12 +1755,25 @@ class Exec(Engine):
         s1.assume(And(Le(IntV(0), i), Le(i, n)))
         self.bind_ghosts(spec, s1)
         for name, text in spec.invariants:
-            s1.assume(self.inv_clause(text, s1, old))
+            t_inv = self.inv_clause(text, s1, old)
+            if t_inv.lit is not None and not t_inv.lit[1]:
+                raise Undecided('invariant %s of loop #%d is literally false on the havocked state '
+                                '(an alias the engine cannot express? use an "=expr" type)' % (name, ordn), node)
+            s1.assume(t_inv)
         # 3. exit
+        cut = spec.exit_post is not None
+        s_after = s1.copy() if cut else None
         s_exit = s1.copy()
         if self.feasible(s_exit, Eq(i, n)):
             s_exit.assume(Eq(i, n))
-            out.extend(self.run_block(node.orelse, s_exit) if node.orelse else [('normal', None, s_exit)])
+            if cut:
+                if node.orelse:
+                    raise Undecided('exit_post on a loop with an else clause', node)
+                for name, text in spec.exit_post:
+                    self.oblige('loop-exit', '%s@loop%d' % (name, ordn), s_exit, self.inv_clause(text, s_exit, old), node,
+                                note='exit by exhaustion')
+            else:
+                out.extend(self.run_block(node.orelse, s_exit) if node.orelse else [('normal', None, s_exit)])
         # 4. body
         s_body = s1
         if self.feasible(s_body, Lt(i, n)):
@@ -1693,6 +1786,13 @@ class Exec(Engine):
                 self.oblige('inv-fact', '%s@loop%d' % (name, ordn), s_body, g, node)
                 s_body.assume(g)
             for kind, payload, s2 in self.run_block(node.body, s_body):
+                self.iter_state = iter_snapshot
+                try:
+                    for name, text in spec.body_always:
+                        self.oblige('always', '%s@loop%d' % (name, ordn), s2, self.inv_clause(text, s2, old), node,
+                                    note='iteration outcome: %s' % kind)
+                finally:
+                    self.iter_state = None
                 if kind in ('normal', 'continue'):
                     # relational postconditions of one iteration (before(e) = value at iteration start)
                     self.iter_state = iter_snapshot
@@ -1706,11 +1806,27 @@ class Exec(Engine):
                     for name, text in spec.invariants:
                         self.oblige('inv-keep', '%s@loop%d' % (name, ordn), s2, self.inv_clause(text, s2, old), node)
                 elif kind == 'break':
-                    s2.ghost['__last_iter__'] = iter_snapshot
-                    out.append(('normal', None, s2))
+                    if cut:
+                        for name, text in spec.exit_post:
+                            self.oblige('loop-exit', '%s@loop%d' % (name, ordn), s2, self.inv_clause(text, s2, old), node,
+                                        note='exit by break')
+                    else:
+                        s2.ghost['__last_iter__'] = iter_snapshot
+                        out.append(('normal', None, s2))
                 else:
                     s2.ghost['__last_iter__'] = iter_snapshot
                     out.append((kind, payload, s2))
+        if cut:
+            # one continuation: loop-head state, everything the loop may change havocked again, exit_post assumed
+            self.havoc_loop(node, spec, s_after)
+            s_after.ghost.pop('_i%d' % ordn, None)
+            for name, text in spec.exit_post:
+                t_post = self.inv_clause(text, s_after, old)
+                if t_post.lit is not None and not t_post.lit[1]:
+                    raise Undecided('exit_post %s of loop #%d is literally false on the havocked state' % (name, ordn), node)
+                s_after.assume(t_post)
+            s_after.ghost['__iter_event_start__'] = len(s_after.events)
+            out.append(('normal', None, s_after))
         return out
 
     def exec_While(self, node, st):
@@ -1779,11 +1895,14 @@ class Exec(Engine):
         if ty[0] == 'obj' and ty[1] in C.RECORDS and ty[1] not in seen:
             seen.add(ty[1])
             for f, fty in C.RECORDS[ty[1]].items():
-                p = parse_type(fty)
+                ov = (self.cur_contract.opts.get('entry_types', {}) if self.cur_contract else {}).get('%s.%s' % (ty[1], f))
+                p = parse_type(ov if ov is not None else fty)
                 if p[0] == 'union':
                     out.append(('%s.%s' % (ty[1], f), len(p[1])))
                     for alt in p[1]:
                         out.extend(self.union_fields(alt, seen))
+                elif '%s.%s' % (ty[1], f) in (self.cur_contract.opts.get('entry_types', {}) if self.cur_contract else {}):
+                    pass
                 else:
                     inner = self.nested_union(p)
                     if inner is not None:
@@ -1854,6 +1973,12 @@ class Exec(Engine):
                             nxt.append(s_k)
                 sts = nxt
             for s in sts:
+                # *args / **kwargs of the function under verification: empty (a precondition of the contract)
+                if 'region' not in c.opts:
+                    if fnode.args.kwarg is not None and fnode.args.kwarg.arg not in s.frames[fid]:
+                        s.frames[fid][fnode.args.kwarg.arg] = s.alloc(HDict({}))
+                    if fnode.args.vararg is not None and fnode.args.vararg.arg not in s.frames[fid]:
+                        s.frames[fid][fnode.args.vararg.arg] = VTuple([])
                 for gname, gty in c.globals.items():
                     modname, attr = gname.rsplit('.', 1)
                     s.globals[(modname, attr)] = self.fresh_result(parse_type(gty), attr, s)
@@ -2226,6 +2351,7 @@ class Exec(Engine):
 ALWAYS_INLINE = {
     'xdoctest.doctest_example:DocTest.valid_testnames',
     'xdoctest.doctest_example:DocTest.unique_callname',
+    'xdoctest.doctest_example:DocTest._block_prefix',
     'xdoctest.doctest_part:DoctestPart.want',
     'xdoctest.doctest_part:DoctestPart.n_lines',
     'xdoctest.doctest_part:DoctestPart.n_exec_lines',
@@ -2280,6 +2406,11 @@ class VExcInfo(V):
     def __init__(self, exc):
         self.exc = exc
 
-    def items(self, n):
+    def items(self, n=3):
         assert n == 3
-        return [VPy(self.exc.cls), self.exc, VVal(smt.CTX.fresh('tb', 'Val'))]
+        tb = self.exc.attrs.get('__tb__')
+        if tb is None:
+            smt.CTX.sort('Val')
+            tb = VVal(smt.CTX.fresh('tb', 'Val'))
+            self.exc.attrs['__tb__'] = tb
+        return [VPy(self.exc.cls), self.exc, tb]
